@@ -4,9 +4,8 @@
    same program up to `await self._wrap_sync(..)` (flow_bind_twin).
    Effects on the receiver (self._sign_header, the PDUs sent, the arguments of step) are stated with Proofs/FlowClientLib.run_self:
    the result and the final value of "self" when the function ends in its last `return`.
-   NOT tied here: SyncRpcClient.bind directly (self._auth.step(..) is a method call on an attribute of a local: the interpreter of
-   Prelude/PyAst.v drops the receiver's new value, so the provider's progress cannot be expressed; the async flavour routes the same
-   call through self._wrap_sync, a method of the local `self`). *)
+   SyncRpcClient.bind is tied semantically as well (flow_sync_bind): `self._auth.step(..)` is a method call on an attribute of the local `self`;
+   Prelude/PyAst.v writes the receiver back along the attribute path (place_set), the world gives x_setattr "_auth" its meaning. *)
 From V Require Import Prelude.Base Prelude.PySlice Prelude.PyAst Prelude.PyWorld gen.F_client gen.K_client gen.C_client gen.C_rpc.
 From V Require Import Model.Handshake Flow.World_client_hs Proofs.FlowClientLib.
 Local Open Scope string_scope.
@@ -422,3 +421,133 @@ Proof.
   destruct (send_pdu _ EBindAck _) as [[[[rs fl] tk]|e] s1] eqn:Es; cbn; [|reflexivity].
   eexists. eexists. exists fl, tk. split; [reflexivity|]. cbn. auto.
 Qed.
+
+(* ==== SyncRpcClient.bind, semantically: self._auth.step(..) is a method call on an attribute of the local `self`; the interpreter writes the
+   provider back into self (PyAst.place_set through x_setattr "_auth"), so the provider's progress is visible to the loop test ==== *)
+Definition sb_while : pstmt := nth 6 (pf_body k_flow_sync_bind) SPass.
+Definition sb_cond : pexp := match sb_while with SWhile c _ => c | _ => PNone end.
+Definition sb_body : list pstmt := match sb_while with SWhile _ b => b | _ => [] end.
+Definition sb_assigned := ["sec_trailer"; "self"; "alter_context"; "alter_resp"; "_"; "in_token"].
+
+Lemma alter_while_sync fuel : forall n (ls : list leg) complete in_token final s env,
+  (List.length ls < n)%nat ->
+  lookup "self" env = Some (VO (OSelf {| cn_auth := true; cn_legs := ls; cn_complete := complete; cn_st := s |})) ->
+  lookup "in_token" env = Some (tokv in_token) ->
+  lookup "final_contexts" env = Some (VL (map ctxv final)) ->
+  lookup "AlterContextResponse" env = None ->
+  match alter_loop ls complete in_token final s with
+  | (Ok _, s') => exists env' c', while_loop WH fuel sb_cond sb_body n env = Ok (Next env')
+       /\ lookup "self" env' = Some (VO (OSelf c')) /\ cn_st c' = s'
+       /\ (forall x, existsb (String.eqb x) sb_assigned = false -> lookup x env' = lookup x env)
+  | (Raise e, _) => while_loop WH fuel sb_cond sb_body n env = Raise e
+  end.
+Proof.
+  induction n as [|n IH]; intros ls complete in_token final s env Hn Hself Htok Hfin Hg; [lia|].
+  rewrite alter_loop_eq. cbn [while_loop].
+  unfold sb_cond, sb_body, sb_while. cbn [nth pf_body k_flow_sync_bind].
+  unfold test. cbn. rewrite Hself. cbn. rewrite truthy_vb. unfold k_bind_loop_guard.
+  destruct complete; cbn.
+  - exists env, {| cn_auth := true; cn_legs := ls; cn_complete := true; cn_st := s |}. auto.
+  - assert (Harg : forall (envx : @penv (pv obj)),
+        (let* pat1 := (let* t := v_truthy hs_ext (tokv in_token) in Ok (t, tokv in_token, envx)) in
+         match pat1 with (true, x, env2) => Ok (x, env2) | (false, _, env2) => Ok (VB [], env2) end)
+        = Ok (VB (or_empty in_token), envx)).
+    { intro envx. destruct in_token as [[|x r]|]; cbn; rewrite ?len_cons_nz, ?len_nil_z; reflexivity. }
+    repeat (rewrite Hself; cbn). rewrite Htok. cbn [bind]. rewrite Harg. cbn. unfold step_hs. cbn [cn_legs].
+    destruct ls as [|l ls']; [reflexivity|]. cbn. repeat (rewrite Hself; cbn).
+    rewrite break_eq. destruct (k_bind_break (leg_token l)) eqn:Eb; cbn.
+    + eexists. eexists. split; [reflexivity|]. split; [cbn; reflexivity|]. split; [reflexivity|].
+      intros x Hx. unfold sb_assigned in Hx. frame_tac Hx. reflexivity.
+    + rewrite Hfin. cbn. rewrite ids_of_ctxv. cbn. rewrite Hg. cbn.
+      unfold create_alter_hs. cbn [cn_st].
+      destruct (send_pdu _ EAlterResp _) as [[[[rs fl] tk]|e] s2] eqn:Es; cbn; [|reflexivity].
+      rewrite Hfin. cbn. rewrite ids_of_ctxv. cbn.
+      destruct (process_bind_ack rs fl tk final s2) as [[[acc tk']|e] s3] eqn:Ep; cbn; [|reflexivity].
+      match goal with |- context [while_loop WH fuel ?c ?b n ?e] =>
+        specialize (IH ls' (leg_complete l) tk' final s3 e) end.
+      cbn in IH. cbn in Hn. specialize (IH ltac:(lia) eq_refl eq_refl Hfin Hg).
+      destruct (alter_loop ls' (leg_complete l) tk' final s3) as [[u|e] s'].
+      * destruct IH as [env' [c' [H1 [H2 [H3 H4]]]]]. exists env', c'.
+        unfold sb_cond, sb_body, sb_while in H1. cbn [nth pf_body k_flow_sync_bind] in H1.
+        split; [exact H1|]. split; [exact H2|]. split; [exact H3|].
+        intros x Hx. rewrite (H4 x Hx). unfold sb_assigned in Hx. frame_tac Hx. reflexivity.
+      * unfold sb_cond, sb_body, sb_while in IH. cbn [nth pf_body k_flow_sync_bind] in IH. exact IH.
+Qed.
+
+(* SyncRpcClient.bind(self, contexts): the whole handshake, for every provider script and every server script.
+   fuel: one `while` iteration per leg after the first. *)
+Lemma flow_sync_bind fuel auth (legs : list leg) srv ids :
+  (List.length legs <= fuel)%nat ->
+  match bind_run auth legs srv ids with
+  | (Ok rs, s) => exists fl tk o,
+      run_self WH fuel k_flow_sync_bind [VO (OSelf (conn0 auth legs srv)); VL (map ctxv ids)] = Ok (VO (OAck false rs fl tk), o)
+      /\ (auth = true -> exists c', o = Some (VO (OSelf c')) /\ cn_st c' = s)
+  | (Raise e, _) => run_self WH fuel k_flow_sync_bind [VO (OSelf (conn0 auth legs srv)); VL (map ctxv ids)] = Raise e
+  end.
+Proof.
+  intro Hf. rewrite bind_run_eq. cbv zeta.
+  unfold run_self. cbn [bind_params pf_params pf_body k_flow_sync_bind split_last_return rev app].
+  match goal with |- context [exec_block WH fuel ?pre ?env] => change pre with (firstn 6 pre ++ skipn 6 pre) end.
+  rewrite exec_block_app. cbn [firstn skipn].
+  match goal with |- context [exec_block WH fuel ?rest _] =>
+    match rest with [SWhile _ _] => remember rest as wh eqn:Ewh end end.
+  destruct auth; cbn [negb].
+  - (* authenticated *)
+    destruct legs as [|l ls].
+    + cbn. reflexivity.
+    + cbn. rewrite ids_of_ctxv. cbn.
+      destruct (send_pdu _ EBindAck _) as [[[[rs fl] tk]|e] s3] eqn:Es; cbn; [|reflexivity].
+      rewrite ids_of_ctxv. cbn.
+      destruct (process_bind_ack rs fl tk ids s3) as [[[fin tk']|e] s4] eqn:Ep; cbn; [|reflexivity].
+      subst wh. rewrite exec_block_cons, exec_while.
+      match goal with |- context [while_loop WH fuel ?c ?b fuel ?e] =>
+        pose proof (alter_while_sync fuel fuel ls (leg_complete l) tk' fin s4 e) as H end.
+      cbn in Hf. cbn in H. specialize (H ltac:(lia) eq_refl eq_refl eq_refl eq_refl).
+      unfold sb_cond, sb_body, sb_while in H. cbn [nth pf_body k_flow_sync_bind] in H.
+      destruct (alter_loop ls (leg_complete l) tk' fin s4) as [[u|e] s5].
+      * destruct H as [env' [c' [H1 [H2 [H3 H4]]]]]. rewrite H1. cbn [bind].
+        pose proof (H4 "bind_ack" eq_refl) as Hb. cbn in Hb.
+        cbn. rewrite Hb. cbn. rewrite H2.
+        exists fl, tk. eexists. split; [reflexivity|]. intros _. exists c'. auto.
+      * rewrite H. reflexivity.
+  - (* anonymous *)
+    cbn. rewrite ids_of_ctxv. cbn. unfold create_bind_hs. cbn.
+    destruct (send_pdu _ EBindAck _) as [[[[rs fl] tk]|e] s1] eqn:Es; cbn; [|reflexivity].
+    exists fl, tk. eexists. split; [reflexivity|]. discriminate.
+Qed.
+
+
+(* ... and through `run`: bind returns the bind_ack whose result vector the model returns *)
+Lemma flow_sync_bind_run fuel auth (legs : list leg) srv ids :
+  (List.length legs <= fuel)%nat ->
+  (let* v := run WH fuel k_flow_sync_bind [VO (OSelf (conn0 auth legs srv)); VL (map ctxv ids)] in Ok (ack_results v))
+  = fst (bind_run auth legs srv ids).
+Proof.
+  intro Hf. rewrite (run_of_run_self WH fuel k_flow_sync_bind _ _ _ eq_refl).
+  pose proof (flow_sync_bind fuel auth legs srv ids Hf) as H.
+  destruct (bind_run auth legs srv ids) as [[rs|e] s].
+  - destruct H as [fl [tk [o [H _]]]]. rewrite H. reflexivity.
+  - rewrite H. reflexivity.
+Qed.
+
+
+(* the anonymous bind returns from inside `if not self._auth:`, so run_self does not see the client afterwards (flow_sync_bind gives the
+   state only when auth = true).  Here: the statements up to and including `bind_ack = self._send_pdu(bind, BindAck)` -- after which
+   the function returns bind_ack at once -- leave the client in the model's final state *)
+Lemma flow_sync_bind_anonymous_state fuel (legs : list leg) srv ids :
+  match bind_run false legs srv ids with
+  | (Ok rs, s) => exists env' c' fl tk,
+      exec_block WH fuel (firstn 4 (pf_body k_flow_sync_bind)) [("self", VO (OSelf (conn0 false legs srv))); ("contexts", VL (map ctxv ids))]
+        = Ok (Next env')
+      /\ lookup "self" env' = Some (VO (OSelf c')) /\ cn_st c' = s /\ lookup "bind_ack" env' = Some (VO (OAck false rs fl tk))
+  | (Raise e, _) =>
+      exec_block WH fuel (firstn 4 (pf_body k_flow_sync_bind)) [("self", VO (OSelf (conn0 false legs srv))); ("contexts", VL (map ctxv ids))]
+        = Raise e
+  end.
+Proof.
+  rewrite bind_run_eq. cbv zeta. cbn [negb firstn pf_body k_flow_sync_bind].
+  cbn. rewrite ids_of_ctxv. cbn. unfold create_bind_hs. cbn.
+  destruct (send_pdu _ EBindAck _) as [[[[rs fl] tk]|e] s1] eqn:Es; cbn; [|reflexivity].
+  eexists. eexists. exists fl, tk. split; [reflexivity|]. cbn. auto.
+Qed.
+
